@@ -256,6 +256,14 @@ Definition subscribe (w : world) (n s : N) (filter : bool) : world :=
   | None => w
   end.
 
+(* a subscriber that no longer keeps up is outside the property: forget it *)
+Definition stall (w : world) (n s : N) : world :=
+  match w_nodes w !! n with
+  | Some nd => set_node w n (Node (n_eng nd) (n_ctr nd) (n_store nd) (n_reps nd) (n_rec nd) (n_log nd)
+                               (delete s (n_subs nd)))
+  | None => w
+  end.
+
 Inductive step_t :=
 | SWrite (n k v lease : N)          (* DB.Set on node n (lease 0 = no option) *)
 | SDel (n k : N)                    (* DB.Delete on node n *)
@@ -269,7 +277,9 @@ Inductive step_t :=
 | SRecBegin (n p : N)               (* runSingleNodeRecovery: loadHighWater *)
 | SRecEnd (n p : N)                 (* runSingleNodeRecovery: stream + apply + commit *)
 | SRecover (n p : N)                (* both, back to back *)
-| SSub (n s : N) (filter : bool).   (* DB.OnChange / NewObservable(IgnoreHostLeaseholder).OnChange *)
+| SSub (n s : N) (filter : bool)    (* DB.OnChange / NewObservable(IgnoreHostLeaseholder).OnChange *)
+| SStall (n s : N).                 (* subscriber s stops keeping up (its handler blocks and its buffers overflow):
+                                       from here on what it is handed is unspecified — the drop hypothesis *)
 
 Definition step (fx : bool) (T : N) (w : world) (s : step_t) : world * N :=
   match s with
@@ -294,6 +304,7 @@ Definition step (fx : bool) (T : N) (w : world) (s : step_t) : world * N :=
   | SRecEnd n p => (rec_end w n p, 0)
   | SRecover n p => (rec_end (rec_begin w n p) n p, 0)
   | SSub n s filter => (subscribe w n s filter, 0)
+  | SStall n s => (stall w n s, 0)
   end.
 
 Definition run (fx : bool) (T : N) (w : world) (l : list step_t) : world :=
